@@ -144,6 +144,115 @@ Proof.
     + unfold adel in Hin. apply filter_In in Hin. destruct Hin as [Hin _]. eapply H; eauto.
 Qed.
 
+(* handing a session over to another node object keeps the world invariant *)
+Lemma In_delN x y l : In x (delN y l) <-> x <> y /\ In x l.
+Proof.
+  unfold delN. rewrite filter_In. split.
+  - intros [H E]. split; [|exact H]. intros ->. rewrite N.eqb_refl in E. discriminate.
+  - intros [H1 H2]. split; [exact H2|]. destruct (N.eqb y x) eqn:E; [apply N.eqb_eq in E; congruence | reflexivity].
+Qed.
+
+Lemma In_addN x y l : In x (addN y l) <-> x = y \/ In x l.
+Proof.
+  unfold addN. destruct (memN y l) eqn:E.
+  - split; [auto|]. intros [->|H]; [|exact H]. unfold memN in E. apply existsb_exists in E. destruct E as [z [Hz Ez]].
+    apply N.eqb_eq in Ez. subst. exact Hz.
+  - rewrite in_app_iff. cbn [In]. split; [intros [H|[H|[]]]; auto | intros [H|H]; auto].
+Qed.
+
+Lemma move_sess_inv w seid s ref' m :
+  WInv w -> live w seid s -> nth_error (w_heap w) ref' = Some m -> ref' <> s_node s ->
+  WInv (fst (move_sess w s ref')) /\ live (fst (move_sess w s ref')) seid (set_node ref' s) /\
+  w_dp (fst (move_sess w s ref')) = w_dp w.
+Proof.
+  intros HI HL Hm Hne.
+  assert (Hlid : s_lid s = seid) by (eapply live_lid; eauto).
+  pose proof HL as [Hp Hnth].
+  unfold move_sess. cbn [fst]. rewrite Hlid.
+  set (s' := set_node ref' s).
+  set (h1 := node_upd (s_node s) (fun n => mkNode (n_id n) (n_addr n) (delN seid (n_sess n))) (w_heap w)).
+  set (h2 := node_upd ref' (fun n => mkNode (n_id n) (n_addr n) (addN seid (n_sess n))) h1).
+  change (set_dp (w_dp w) (set_slots_free (set_nth (N.to_nat (seid - 1)) (Some s') (w_slots w)) (w_free w) w))
+    with (upd_world w seid s' (w_dp w)).
+  set (wu := upd_world w seid s' (w_dp w)).
+  assert (Lsame : live (set_heap h2 wu) seid s') by (apply (live_upd_same w seid s s' (w_dp w) HL)).
+  assert (Lother : forall l x, l <> seid -> (live (set_heap h2 wu) l x <-> live w l x)).
+  { intros l x Hl. apply (live_upd_other w seid s' (w_dp w) l x Hl Hp). }
+  assert (Hh2 : forall r, nth_error h2 r =
+     match nth_error (w_heap w) r with
+     | Some n => if Nat.eqb ref' r then Some (mkNode (n_id n) (n_addr n) (addN seid (n_sess n)))
+                 else if Nat.eqb (s_node s) r then Some (mkNode (n_id n) (n_addr n) (delN seid (n_sess n))) else Some n
+     | None => None end).
+  { intros r. unfold h2. rewrite node_upd_nth. unfold h1. rewrite node_upd_nth.
+    destruct (nth_error (w_heap w) r) as [n|]; [|reflexivity].
+    destruct (Nat.eqb_spec ref' r) as [->|E1]; destruct (Nat.eqb_spec (s_node s) r) as [E2|E2]; try reflexivity.
+    exfalso. apply Hne. symmetry. exact E2. }
+  split; [|split; [exact Lsame | reflexivity]].
+  destruct HI as [A B C D E F G H].
+  constructor; cbn [set_heap w_free w_slots w_dp w_heap w_rnodes]; cbn [wu upd_world set_dp set_slots_free w_free w_slots w_dp w_heap w_rnodes].
+  - exact A.
+  - intros id. rewrite (B id). rewrite nth_set_nth.
+    assert (Hlt : (N.to_nat (seid - 1) < length (w_slots w))%nat) by (apply nth_error_Some; congruence).
+    destruct (Nat.eqb_spec (N.to_nat (seid - 1)) (N.to_nat (id - 1))) as [E0|E0].
+    + split; intros [H1 H2].
+      * exfalso. rewrite <- E0 in H2. congruence.
+      * exfalso. destruct (N.to_nat (seid - 1) <? length (w_slots w))%nat; discriminate.
+    + tauto.
+  - intros i x Hx. rewrite nth_set_nth in Hx.
+    destruct (Nat.eqb_spec (N.to_nat (seid - 1)) i) as [E0|E0].
+    + destruct (N.to_nat (seid - 1) <? length (w_slots w))%nat; inversion Hx; subst. cbn [s' set_node s_lid]. lia.
+    + apply C. exact Hx.
+  - intros sd k id Hi. destruct (D _ _ _ Hi) as [x [Lx Rx]].
+    destruct (N.eq_dec sd seid) as [->|Hd].
+    + exists s'. split; [exact Lsame|]. rewrite (live_fun _ _ _ _ Lx HL) in Rx. destruct k; exact Rx.
+    + exists x. split; [apply Lother; assumption | exact Rx].
+  - intros l x Lx. destruct (N.eq_dec l seid) as [->|Hd].
+    + rewrite (live_fun _ _ _ _ Lx Lsame). pose proof (E _ _ HL) as Er. intros u inf Hu Hr Hi. apply (Er u inf Hu Hr). exact Hi.
+    + apply Lother in Lx; [|exact Hd]. apply (E _ _ Lx).
+  - intros l x Lx. destruct (N.eq_dec l seid) as [->|Hd].
+    + rewrite (live_fun _ _ _ _ Lx Lsame). cbn [s' set_node s_node]. rewrite Hh2, Hm, Nat.eqb_refl.
+      eexists. split; [reflexivity|]. cbn [n_sess]. apply In_addN. left. reflexivity.
+    + apply Lother in Lx; [|exact Hd]. destruct (F _ _ Lx) as [n [Hn Hin]]. rewrite Hh2, Hn.
+      destruct (Nat.eqb ref' (s_node x)); [eexists; split; [reflexivity|]; cbn [n_sess]; apply In_addN; right; exact Hin|].
+      destruct (Nat.eqb (s_node s) (s_node x)); eexists; (split; [reflexivity|]); cbn [n_sess]; [apply In_delN; split; assumption | exact Hin].
+  - intros r n l Hn Hin. rewrite Hh2 in Hn. destruct (nth_error (w_heap w) r) as [n0|] eqn:En0; [|discriminate].
+    destruct (Nat.eqb_spec ref' r) as [<-|E1].
+    + inversion Hn; subst n. cbn [n_sess] in Hin. apply In_addN in Hin. destruct Hin as [->|Hin].
+      * exists s'. split; [exact Lsame | reflexivity].
+      * destruct (G _ _ _ En0 Hin) as [x [Lx Ex]]. destruct (N.eq_dec l seid) as [->|Hd].
+        -- exists s'. split; [exact Lsame | reflexivity].
+        -- exists x. split; [apply Lother; assumption | exact Ex].
+    + destruct (Nat.eqb_spec (s_node s) r) as [E2|E2].
+      * inversion Hn; subst n. cbn [n_sess] in Hin. apply In_delN in Hin. destruct Hin as [Hd Hin].
+        destruct (G _ _ _ En0 Hin) as [x [Lx Ex]]. exists x. split; [apply Lother; assumption | exact Ex].
+      * inversion Hn; subst n. destruct (G _ _ _ En0 Hin) as [x [Lx Ex]].
+        destruct (N.eq_dec l seid) as [->|Hd].
+        -- exfalso. rewrite (live_fun _ _ _ _ Lx HL) in Ex. apply E2. exact Ex.
+        -- exists x. split; [apply Lother; assumption | exact Ex].
+  - intros id r Hin. unfold h2, h1. rewrite !node_upd_length. eapply H; eauto.
+Qed.
+
+Lemma takeover_inv w seid s newid w1 s1 :
+  WInv w -> live w seid s -> takeover w s newid = (w1, s1) ->
+  WInv w1 /\ live w1 seid s1 /\ w_dp w1 = w_dp w /\ s_lid s1 = s_lid s /\ s_rid s1 = s_rid s.
+Proof.
+  intros HI HL. unfold takeover.
+  assert (Hrekey : forall id, WInv (update_node_id w (s_node s) id) /\ live (update_node_id w (s_node s) id) seid s /\
+                              w_dp (update_node_id w (s_node s) id) = w_dp w).
+  { intros id. destruct (wi_node w HI _ _ HL) as [n [Hn _]]. split; [eapply update_node_id_inv; eauto|].
+    unfold update_node_id. rewrite Hn. split; [exact HL | reflexivity]. }
+  destruct (alookup newid (w_rnodes w)) as [ref'|] eqn:Er.
+  - destruct (Nat.eqb_spec ref' (s_node s)) as [E|E].
+    + intros H. inversion H; subst. destruct (Hrekey newid) as [A [B C]]. auto.
+    + intros H. assert (Hx : w1 = fst (move_sess w s ref') /\ s1 = set_node ref' s).
+      { unfold move_sess in *. inversion H; subst. split; reflexivity. }
+      destruct Hx as [-> ->].
+      apply alookup_In in Er. pose proof (wi_rnodes w HI _ _ Er) as Hlt.
+      destruct (nth_error (w_heap w) ref') as [m|] eqn:Em; [|apply nth_error_None in Em; lia].
+      destruct (move_sess_inv w seid s ref' m HI HL Em E) as [A [B C]]. auto.
+  - intros H. inversion H; subst. destruct (Hrekey newid) as [A [B C]]. auto.
+Qed.
+
 (* ---------------------------------------------------------------- committing a modified session *)
 
 Lemma put_slot_upd w lid s0 s' dp' :
@@ -226,37 +335,33 @@ Proof.
   intros HI. unfold handle_mod.
   destruct (lookup (w_slots w) seid) as [[s|]|f] eqn:El.
   - apply lookup_found in El.
-    assert (HI1 : WInv (match nid with IeVal id => update_node_id w (s_node s) id | _ => w end)).
-    { destruct nid; auto. destruct (wi_node w HI _ _ El) as [n [Hn _]]. eapply update_node_id_inv; eauto. }
-    assert (HL1 : live (match nid with IeVal id => update_node_id w (s_node s) id | _ => w end) seid s).
-    { destruct nid; auto. unfold update_node_id. destruct (nth_error (w_heap w) (s_node s)); exact El. }
-    assert (Hdp : w_dp (match nid with IeVal id => update_node_id w (s_node s) id | _ => w end) = w_dp w).
-    { destruct nid; auto. unfold update_node_id. destruct (nth_error (w_heap w) (s_node s)); reflexivity. }
+    assert (Main : forall w1 s1, WInv w1 -> live w1 seid s1 -> s_lid s1 = seid ->
+      step_ok (match run_categories e o mod_order (mkCtx s1 (w_dp w1) []) with
+               | Some (c, rs) =>
+                 let '(urrs, ies) := emit 0 true (s_urrs (c_s c)) rs in
+                 match put_slot (set_dp (c_dp c) w1) (set_urrs urrs (c_s c)) with
+                 | Ok w2 => let '(w3, o3) := send_rsp w2 peer seq (PModRsp seq (s_rid s) CauseAccepted ies) in Ok (w3, c_out c ++ o3)
+                 | Fault f => Fault f
+                 end
+               | None => Ok (w, [])
+               end)).
+    { intros w1 s1 HI1 HL1 Hlid.
+      destruct (run_categories e o mod_order (mkCtx s1 (w_dp w1) [])) as [[c rs]|] eqn:Ec; [|apply step_ok_same; assumption].
+      apply run_categories_good in Ec. cbn [fst] in Ec. destruct Ec as [[Fl Fr Fn Fo _] HS]. cbn [c_s c_dp] in *.
+      pose proof (emit_rel 0 true (s_urrs (c_s c)) rs) as R.
+      destruct (emit 0 true (s_urrs (c_s c)) rs) as [urrs ies]. cbn [fst] in R.
+      rewrite (put_slot_upd w1 seid s1 (set_urrs urrs (c_s c)) (c_dp c) HL1) by (cbn; congruence).
+      apply step_ok_send_rsp.
+      eapply WInv_upd; eauto.
+      * cbn. congruence.
+      * apply SOK_urr_rel; auto. apply HS. eapply live_SOK; eauto.
+      * intros r Hr. apply Fo. congruence. }
+    assert (Hlid : s_lid s = seid) by (eapply live_lid; eauto).
     destruct nid as [| |id]; [|apply step_ok_same; assumption|].
-    + set (w1 := w) in *.
-      destruct (run_categories e o mod_order (mkCtx s (w_dp w1) [])) as [[c rs]|] eqn:Ec; [|apply step_ok_same; assumption].
-      apply run_categories_good in Ec. cbn [fst] in Ec. destruct Ec as [[Fl Fr Fn Fo _] HS]. cbn [c_s c_dp] in *.
-      pose proof (emit_rel 0 true (s_urrs (c_s c)) rs) as R.
-      destruct (emit 0 true (s_urrs (c_s c)) rs) as [urrs ies]. cbn [fst] in R.
-      assert (Hlid : s_lid s = seid) by (eapply live_lid; eauto).
-      rewrite (put_slot_upd w1 seid s (set_urrs urrs (c_s c)) (c_dp c) HL1) by (cbn; congruence).
-      apply step_ok_send_rsp.
-      eapply WInv_upd; eauto.
-      * cbn. congruence.
-      * apply SOK_urr_rel; auto. apply HS. eapply live_SOK; eauto.
-      * intros r Hr. apply Fo. congruence.
-    + set (w1 := update_node_id w (s_node s) id) in *.
-      destruct (run_categories e o mod_order (mkCtx s (w_dp w1) [])) as [[c rs]|] eqn:Ec; [|apply step_ok_same; assumption].
-      apply run_categories_good in Ec. cbn [fst] in Ec. destruct Ec as [[Fl Fr Fn Fo _] HS]. cbn [c_s c_dp] in *.
-      pose proof (emit_rel 0 true (s_urrs (c_s c)) rs) as R.
-      destruct (emit 0 true (s_urrs (c_s c)) rs) as [urrs ies]. cbn [fst] in R.
-      assert (Hlid : s_lid s = seid) by (eapply live_lid; eauto).
-      rewrite (put_slot_upd w1 seid s (set_urrs urrs (c_s c)) (c_dp c) HL1) by (cbn; congruence).
-      apply step_ok_send_rsp.
-      eapply WInv_upd; eauto.
-      * cbn. congruence.
-      * apply SOK_urr_rel; auto. apply HS. eapply live_SOK; eauto.
-      * intros r Hr. apply Fo. congruence.
+    + apply Main; assumption.
+    + destruct (takeover w s id) as [w1 s1] eqn:Et.
+      destruct (takeover_inv _ _ _ _ _ _ HI El Et) as [HI1 [HL1 [_ [Hl1 _]]]].
+      apply Main; [assumption | assumption | congruence].
   - apply step_ok_send_rsp'. assumption.
   - exfalso. eapply lookup_no_fault; eauto.
 Qed.
@@ -266,30 +371,29 @@ Proof.
   intros HI. unfold handle_mod_abort.
   destruct (lookup (w_slots w) seid) as [[s|]|f] eqn:El.
   - apply lookup_found in El.
-    assert (HI1 : WInv (match nid with IeVal id => update_node_id w (s_node s) id | _ => w end)).
-    { destruct nid; auto. destruct (wi_node w HI _ _ El) as [n [Hn _]]. eapply update_node_id_inv; eauto. }
-    assert (HL1 : live (match nid with IeVal id => update_node_id w (s_node s) id | _ => w end) seid s).
-    { destruct nid; auto. unfold update_node_id. destruct (nth_error (w_heap w) (s_node s)); exact El. }
-    assert (Hdp : w_dp (match nid with IeVal id => update_node_id w (s_node s) id | _ => w end) = w_dp w).
-    { destruct nid; auto. unfold update_node_id. destruct (nth_error (w_heap w) (s_node s)); reflexivity. }
+    assert (Main : forall w1 s1, WInv w1 -> live w1 seid s1 -> s_lid s1 = seid ->
+      step_ok (match run_categories e o mod_order (mkCtx s1 (w_dp w1) []) with
+               | Some (c, _) =>
+                 match put_slot (set_dp (c_dp c) w1) (c_s c) with
+                 | Ok w2 => Ok (w2, c_out c)
+                 | Fault f => Fault f
+                 end
+               | None => Ok (w, [])
+               end)).
+    { intros w1 s1 HI1 HL1 Hlid.
+      destruct (run_categories e o mod_order (mkCtx s1 (w_dp w1) [])) as [[c rs]|] eqn:Ec; [|apply step_ok_same; assumption].
+      apply run_categories_good in Ec. cbn [fst] in Ec. destruct Ec as [[Fl Fr Fn Fo _] HS]. cbn [c_s c_dp] in *.
+      rewrite (put_slot_upd w1 seid s1 (c_s c) (c_dp c) HL1) by congruence.
+      apply step_ok_same. eapply WInv_upd; eauto.
+      * congruence.
+      * apply HS. eapply live_SOK; eauto.
+      * intros r Hr. apply Fo. congruence. }
     assert (Hlid : s_lid s = seid) by (eapply live_lid; eauto).
     destruct nid as [| |id]; [|apply step_ok_same; assumption|].
-    + set (w1 := w) in *.
-      destruct (run_categories e o mod_order (mkCtx s (w_dp w1) [])) as [[c rs]|] eqn:Ec; [|apply step_ok_same; assumption].
-      apply run_categories_good in Ec. cbn [fst] in Ec. destruct Ec as [[Fl Fr Fn Fo _] HS]. cbn [c_s c_dp] in *.
-      rewrite (put_slot_upd w1 seid s (c_s c) (c_dp c) HL1) by congruence.
-      apply step_ok_same. eapply WInv_upd; eauto.
-      * congruence.
-      * apply HS. eapply live_SOK; eauto.
-      * intros r Hr. apply Fo. congruence.
-    + set (w1 := update_node_id w (s_node s) id) in *.
-      destruct (run_categories e o mod_order (mkCtx s (w_dp w1) [])) as [[c rs]|] eqn:Ec; [|apply step_ok_same; assumption].
-      apply run_categories_good in Ec. cbn [fst] in Ec. destruct Ec as [[Fl Fr Fn Fo _] HS]. cbn [c_s c_dp] in *.
-      rewrite (put_slot_upd w1 seid s (c_s c) (c_dp c) HL1) by congruence.
-      apply step_ok_same. eapply WInv_upd; eauto.
-      * congruence.
-      * apply HS. eapply live_SOK; eauto.
-      * intros r Hr. apply Fo. congruence.
+    + apply Main; assumption.
+    + destruct (takeover w s id) as [w1 s1] eqn:Et.
+      destruct (takeover_inv _ _ _ _ _ _ HI El Et) as [HI1 [HL1 [_ [Hl1 _]]]].
+      apply Main; [assumption | assumption | congruence].
   - apply step_ok_same. assumption.
   - exfalso. eapply lookup_no_fault; eauto.
 Qed.
